@@ -82,8 +82,8 @@ CLAIMS.update({
     "C19": dict(engine="watcher", design_ref="4 C19", technique="TLA+ model checking (WatchMC) + script replay with state comparison + TLC validation",
                 text="WatchMC explores every Subscribe/notify/drain/end sequence to depth 4 (5) and all 127 masks x 7 changes; scripts are replayed on the real Watcher comparing the buffered count of every subscriber after every call and each drained sequence and closed-ness; overflow chains around the 8-slot buffer; concurrent runs judged for ordered selection and closure.",
                 note=_vec_note),
-    "C20": dict(engine="server", design_ref="4 C20", technique="TLA+ model checking (Server.tla with ServReq) + script replay on the real Serve + TLC validation",
-                text="Server.tla explores every interleaving of 2 (3) stub tasks x behaviours x signal kinds composed with ServReq; quiescent histories are replayed on the real Serve with the real signal task, terminator and a unix-datagram notify socket; BuildTasks over all mixes of <= 3 interfaces; the HTTP retry loop under virtual time.",
+    "C20": dict(engine="server", design_ref="4 C20", technique="TLA+ model checking (Server.tla and HttpTask.tla with ServReq) + script replay on the real Serve / httpTask + TLC validation",
+                text="Server.tla explores every interleaving of 2 (3) stub tasks x behaviours x signal kinds composed with ServReq; quiescent histories are replayed on the real Serve with the real signal task, terminator and a unix-datagram notify socket; BuildTasks over all mixes of <= 3 interfaces; the HTTP retry loop under virtual time; HttpTask.tla models httpTask.Run against an occupied address and a cancellation, and the real task is run on a loopback address (ready only when listening, retry 3 s apart, handler served, prompt nil return, nothing served afterwards).",
                 note=_vec_note),
 })
 ENGINES += [
@@ -92,7 +92,7 @@ ENGINES += [
     {"name": "verify", "path": "spec/Verify.tla spec/VerifyTrace.tla harness/corerad/vf_verify.go", "serves_properties": ["C12"], "kind_free_text": "requirement bag evaluated by TLC"},
     {"name": "monitor", "path": "spec/MonReq.tla spec/MonTrace.tla lib/checks_mon.py", "serves_properties": ["C18"], "kind_free_text": "store monitor"},
     {"name": "watcher", "path": "spec/WatchReq.tla spec/WatchMC.tla spec/WatchTrace.tla harness/netstate lib/checks_misc.py", "serves_properties": ["C19"], "kind_free_text": "model checking + state-comparing replay"},
-    {"name": "server", "path": "spec/Server.tla spec/ServReq.tla spec/ServTrace.tla harness/corerad/vf_server.go lib/checks_misc.py", "serves_properties": ["C20"], "kind_free_text": "model checking + replay"},
+    {"name": "server", "path": "spec/Server.tla spec/HttpTask.tla spec/ServReq.tla spec/ServTrace.tla harness/corerad/vf_server.go lib/checks_misc.py", "serves_properties": ["C20"], "kind_free_text": "model checking + replay"},
     {"name": "observe", "path": "spec/ObsTrace.tla harness/corerad/vf_observe.go lib/checks_cfg.py", "serves_properties": ["C17"], "kind_free_text": "projection of BuildRA compared with gathered samples / API JSON"},
 ]
 
